@@ -144,7 +144,7 @@ def c08_clone_reset(report, cfg):
             engine_guard(go, report, "R8.2", ikey)
 
 
-def c08_chunking(report, cfg, only=None):
+def c08_chunking(report, cfg, only=None, deep=False):
     f = facts.load(cfg)
     total = 0
     for t, fam, bb in hashers(f):
@@ -152,7 +152,12 @@ def c08_chunking(report, cfg, only=None):
             continue
         upd = find(f, r"^<%s as digest::Update>::update::<&\[u8\]>$" % re.escape(t))
         lens = (0, 1, bb - 1, bb, bb + 1, 2 * bb + 3)
-        for p in (0, 1, bb - 1):
+        positions = (0, 1, bb - 1)
+        if deep:
+            # thorough: a mid-buffer position and long pieces (threshold-based fast paths), more residues
+            lens = (0, 1, 17, bb - 1, bb, bb + 1, 2 * bb + 3, 4 * bb + bb - 14, 8 * bb + 3)
+            positions = (0, 1, 17, bb // 2, bb - 1)
+        for p in positions:
             for la in lens:
                 for lb in lens:
                     ikey = "%s update(%d)+update(%d) at pos %d@%s" % (facts.abbrev(t), la, lb, p, cfg)
